@@ -264,52 +264,63 @@ def _walk_exprs(e, out):
         _walk_exprs(e[3], out)
 
 
+def _expr_acc(e, cond, out):
+    """accesses of an expression in the order of `C08.exprAcc`: (var, is_write, cond, subscripts)"""
+    tag = e[0]
+    if tag == "var":
+        out.append((e[1], False, cond, []))
+    elif tag in ("idx1", "idx2"):
+        for s in e[2:]:
+            _expr_acc(s, cond, out)
+        out.append((e[1], False, cond, e[2:]))
+    elif tag == "un":
+        _expr_acc(e[2], cond, out)
+    elif tag == "bin":
+        _expr_acc(e[2], cond, out)
+        _expr_acc(e[3], cond, out)
+
+
+def _stmt_acc(s, cond, out, inner):
+    """accesses of a statement in the order of `C08.stmtAcc`"""
+    tag = s[0]
+    if tag in ("seqs", "seq"):
+        for c in s[1:]:
+            _stmt_acc(c, cond, out, inner)
+    elif tag == "assign":
+        _expr_acc(s[2], cond, out)
+        out.append((s[1], True, cond, []))
+    elif tag in ("store1", "store2"):
+        nsub = 1 if tag == "store1" else 2
+        _expr_acc(s[2 + nsub], cond, out)
+        for e in s[2:2 + nsub]:
+            _expr_acc(e, cond, out)
+        out.append((s[1], True, cond, s[2:2 + nsub]))
+    elif tag == "ite":
+        _expr_acc(s[1], cond, out)
+        _stmt_acc(s[2], True, out, inner)
+        _stmt_acc(s[3], True, out, inner)
+    elif tag == "loop":
+        inner.add(s[1])
+        out.append((s[1], True, cond, []))
+        out.append((s[1], False, cond, []))
+        for e in s[2:5]:
+            _expr_acc(e, cond, out)
+        _stmt_acc(s[5], True, out, inner)
+
+
 class BodyInfo:
-    """array subscripts, scalar writes (with 'conditional' flag), written variables and inner loop variables
-    of the body of the analysed loop (MiniF nested lists)."""
+    """access list of the body of the analysed loop (MiniF nested lists), written variables, inner loop variables"""
 
     def __init__(self, loop):
         self.var = loop[1]
-        self.subs = {}          # array id -> list of subscript lists
-        self.swrites = {}       # scalar id -> list of cond flags of its writes (incl. DO statements)
-        self.written = set()
         self.inner = set()
-        self._stmt(loop[5], False)
-
-    def _expr(self, e):
-        refs = []
-        _walk_exprs(e, refs)
-        for arr, ss in refs:
-            self.subs.setdefault(arr, []).append(ss)
-
-    def _stmt(self, s, cond):
-        tag = s[0]
-        if tag == "skip":
-            return
-        if tag in ("seqs", "seq"):
-            for c in s[1:]:
-                self._stmt(c, cond)
-        elif tag == "assign":
-            self._expr(s[2])
-            self.swrites.setdefault(s[1], []).append(cond)
-            self.written.add(s[1])
-        elif tag in ("store1", "store2"):
-            nsub = 1 if tag == "store1" else 2
-            for e in s[2:]:
-                self._expr(e)
-            self.subs.setdefault(s[1], []).append(s[2:2 + nsub])
-            self.written.add(s[1])
-        elif tag == "ite":
-            self._expr(s[1])
-            self._stmt(s[2], True)
-            self._stmt(s[3], True)
-        elif tag == "loop":
-            for e in s[2:5]:
-                self._expr(e)
-            self.swrites.setdefault(s[1], []).append(cond)
-            self.written.add(s[1])
-            self.inner.add(s[1])
-            self._stmt(s[5], True)
+        self.acc = []
+        _stmt_acc(loop[5], False, self.acc, self.inner)
+        self.written = {a[0] for a in self.acc if a[1]}
+        self.subs = {}
+        for a in self.acc:
+            if a[3]:
+                self.subs.setdefault(a[0], []).append(a[3])
 
 
 def classify(loop, x):
@@ -331,7 +342,7 @@ def classify(loop, x):
                 out.append("C08-inner-variable-subscript")
                 break
     else:
-        ws = info.swrites.get(x, [])
-        if ws and all(ws):
+        first = [a for a in info.acc if a[0] == x][:1]
+        if first and first[0][1] and first[0][2]:
             out.append("C08-conditional-scalar")
     return out
